@@ -1,7 +1,7 @@
 (* C01 — Every signed message verifies, in memory and after a wire round trip.
    Statements only (copied from coq/theories by bin/mkprops); each proof is `exact <lemma>`. *)
 From Coq Require Import Ascii String ZArith List Bool Permutation.
-From GoCose Require Import Bytes Cbor CborProofs Res GoVal Obs Ecdsa EcdsaProofs Fx Headers Enc Dec Msg HashEnv Key SigVer Run TbsProofs FlowProofs DecProofs KeyProofs HdrProofs EncProofs EncCanon NoPanic Effects MoreProofs KeyCbor EncDec HdrRoundTrip.
+From GoCose Require Import Bytes Cbor CborProofs Res GoVal Obs Ecdsa EcdsaProofs Fx Headers Enc Dec Msg HashEnv Key SigVer Run TbsProofs FlowProofs DecProofs KeyProofs HdrProofs EncProofs EncCanon NoPanic Effects MoreProofs KeyCbor EncDec HdrRoundTrip WireLeg.
 From GoCose.Gen Require Import Generated.
 Import ListNotations.
 Open Scope Z_scope.
@@ -83,3 +83,55 @@ Theorem C01_det_bstr_any_width :
   det_bstr (ser (WStr false w b)) = Acc (enc_bstr b).
 Proof. exact det_bstr_any_width. Qed.
 Print Assumptions C01_det_bstr_any_width.
+
+(* end to end for COSE_Sign1 with typed header buckets of nested simple values: Sign succeeded, MarshalCBOR returned bytes => UnmarshalCBOR accepts them and Verify succeeds on the decoded message, for an arbitrary signer and any verifier accepting its output *)
+Theorem C01_sign1_sign_marshal_unmarshal_verify :
+  forall m ext sg vf op ou payload sig out,
+  accepts vf sg ->
+  out_res (sign1_sign m ext sg) = Acc tt ->
+  out_post (sign1_sign m ext sg) = mkS1 (mkH None op None ou) payload (Some sig) ->   
+  bucket_ok op -> bucket_ok ou -> prot_limits op -> unprot_limits ou ->
+  payload_ok payload -> short sig ->
+  marshal_sign1 (mkS1 (mkH None op None ou) payload (Some sig)) = Acc out ->
+  lib_wf false (tl out) <> None ->
+  exists m', unmarshal_sign1 out = Acc m' /\ fst (sign1_verify m' ext vf) = Acc tt.
+Proof. exact sign1_sign_marshal_unmarshal_verify. Qed.
+Print Assumptions C01_sign1_sign_marshal_unmarshal_verify.
+
+(* the decoded message keeps the emitted bucket bytes, the payload and the signature, and says the same about every label and about alg *)
+Theorem C01_sign1_wire_roundtrip :
+  forall op ou payload sig out,
+  let h := mkH None op None ou in
+  bucket_ok op -> bucket_ok ou -> prot_limits op -> unprot_limits ou ->
+  payload_ok payload -> short sig -> sig <> [] ->
+  marshal_sign1 (mkS1 h payload (Some sig)) = Acc out ->
+  lib_wf false (tl out) <> None ->                          
+  exists pb ub dp du,
+    marshal_protected h = Acc pb /\ marshal_unprotected h = Acc ub /\
+    unmarshal_sign1 out = Acc (mkS1 (mkH (Some pb) (Some dp) (Some ub) (Some du)) payload (Some sig)) /\
+    same_view (hmap op) dp /\ same_view (hmap ou) du /\ 0 < len pb.
+Proof. exact sign1_wire_roundtrip. Qed.
+Print Assumptions C01_sign1_wire_roundtrip.
+
+Theorem C01_sign1_wire_verifies :
+  forall op ou payload sig out ext vf,
+  let h := mkH None op None ou in
+  bucket_ok op -> bucket_ok ou -> prot_limits op -> unprot_limits ou ->
+  payload_ok payload -> short sig -> sig <> [] ->
+  marshal_sign1 (mkS1 h payload (Some sig)) = Acc out -> lib_wf false (tl out) <> None ->
+  fst (sign1_verify (mkS1 h payload (Some sig)) ext vf) = Acc tt ->          
+  exists m', unmarshal_sign1 out = Acc m' /\ fst (sign1_verify m' ext vf) = Acc tt.
+Proof. exact sign1_wire_verifies. Qed.
+Print Assumptions C01_sign1_wire_verifies.
+
+Theorem C01_wire_example :
+  let op := Some [GInt KInt64 1; GInt KAlg (-7); GInt KInt64 4; GBytes [107]] in
+  let ou := Some [GInt KInt 3; GStr (x "612f62")] in
+  let sg := mkSigner (-7) (fun _ => SOk (Some [1; 2; 3])) in
+  let m := mkS1 (mkH None op None ou) (Some [112]) None in
+  out_res (sign1_sign m None sg) = Acc tt /\
+  out_post (sign1_sign m None sg) = mkS1 (mkH None op None ou) (Some [112]) (Some [1; 2; 3]) /\
+  bucket_ok op /\ bucket_ok ou /\
+  marshal_sign1 (mkS1 (mkH None op None ou) (Some [112]) (Some [1; 2; 3])) = Acc (x "d28446a2012604416ba10363612f62417043010203").
+Proof. exact wire_example. Qed.
+Print Assumptions C01_wire_example.
